@@ -24,5 +24,5 @@ def main(prop: str, tier: str, cell_name: str, args: dict) -> None:
     if ret is None:
         print("NOT-REPRODUCED property held on the concrete run")
         sys.exit(0)
-    print(f"REPRODUCED {ret.kind}: {ret.detail}")
+    print(f"REPRODUCED {ret.text()}")
     sys.exit(1)
